@@ -249,7 +249,7 @@ pub fn c10_cases(rng: &mut Rng, tier: &str, out: &mut Out) {
         // model: single reads for layers where they are deterministic
         let single = plan.layers & L_COMP == 0;
         let mrows = if single { run_history(&built.bytes, &privs, &plan.names, &ops, true) } else { rows.clone() };
-        let (f, args) = if single { hist_model(&plan, &built, &ops) } else { ("", vec![]) };
+        let (f, args) = if single { hist_model(&plan, &built, &ops) } else { crate::histstack::model_call(&plan, &built, &privs[0], &ops, 4000) };
         out.case(&Case {
             id: format!("c10-{done}"),
             model_fn: f,
